@@ -1080,7 +1080,10 @@ def _default_norm(comps, p):
     if p != 2:
         raise Unsupported(f"norm p={p}")
     if not _builtin_any(is_symbolic(c) for c in comps):
-        return math.sqrt(_builtin_sum(_pyfloat(c) ** 2 for c in comps))
+        acc = np.float32(0.0)
+        for c in comps:
+            acc = np.float32(acc + np.float32(np.float32(c) * np.float32(c)))
+        return _pyfloat(np.sqrt(acc))
     if len(comps) == 1:
         return s_abs(comps[0])
     if len(comps) != 2:
